@@ -50,6 +50,7 @@ type gen struct {
 	msgKinds           map[string]bool
 	sweep              *sweepSpec
 	swept              bool
+	afterSweep         int
 	bringUp            int
 }
 
@@ -482,6 +483,32 @@ func (g *gen) extra(h *tssworld.Hist, ops *[]*tssworld.TxRec) {
 			return
 		}
 		h.Add(ops, tag, actor, msg, nil)
+	}
+	// after the swept parameter was set: the next blocks are guaranteed to carry the traffic that reads oracle, tss and
+	// bandtss parameters (an unmutated oracle request with a TSS encoder, reports for it, a direct signature request)
+	if g.sweep != nil && g.swept && g.afterSweep < 3 {
+		g.afterSweep++
+		u := users[g.afterSweep%len(users)]
+		h.Add(ops, "oracle:request-after-sweep", u, oracletypes.NewMsgRequestData(oracletypes.OracleScriptID(sim.ScriptComplex), sim.ComplexCalldata([]int64{1, 2}, "c"), 1, 1, "c02s",
+			sdk.NewCoins(sdk.NewInt64Coin("uband", 1_000_000)), 200_000, 1_000_000, u.Addr, oracletypes.ENCODER_PROTO), nil)
+		ok := w.App.OracleKeeper
+		if cnt := ok.GetRequestCount(ctx); cnt > 0 {
+			if req, err := ok.GetRequest(ctx, oracletypes.RequestID(cnt)); err == nil {
+				for _, v := range w.Vals {
+					if ok.HasReport(ctx, oracletypes.RequestID(cnt), v.Val) {
+						continue
+					}
+					var raws []oracletypes.RawReport
+					for _, rr := range req.RawRequests {
+						raws = append(raws, oracletypes.NewRawReport(rr.ExternalID, 0, []byte("d")))
+					}
+					h.Add(ops, "oracle:report-after-sweep", v, oracletypes.NewMsgReportData(oracletypes.RequestID(cnt), raws, v.Val), nil)
+				}
+			}
+		}
+		if m, err := bandtsstypes.NewMsgRequestSignature(tsstypes.NewTextSignatureOrder([]byte("after-sweep")), sdk.NewCoins(sdk.NewInt64Coin("uband", 1_000_000)), u.Addr.String()); err == nil {
+			h.Add(ops, "bandtss:request-after-sweep", u, m, nil)
+		}
 	}
 	// bring-up template: three funded, active TSS tunnels with short intervals, so that several packets
 	// (and their signings) are produced in the same end-block
